@@ -26,7 +26,7 @@
    (through the answer to its retry receipt) is never shown a stanza encrypted before that answer again - the part
    of per-(recipient, id) at-most-once that concerns a late duplicate of the original group stanza. *)
 From YV Require Import Common.Tac C03.C03Model C03.C03Proofs C03.C03WorldModel C03.C03WorldProofs C03.C03WorldCipher
-                       C03.C03ChainModel C03.C03Chain.
+                       C03.C03ChainModel C03.C03Chain C03.C03Redist.
 Local Open Scope N_scope.
 
 (* ---- only ciphertext ---- *)
@@ -274,3 +274,54 @@ Theorem C03_chain_cached_below_emitted_refuted :
     ~ (it < pos_cached (fst (run a0 ins)) g).
 Proof. exact cached_position_below_emitted_refuted. Qed.
 Print Assumptions C03_chain_cached_below_emitted_refuted.
+
+(* ---- a RE-distribution leaves the recipient's chain position alone (C03/C03Redist.v) ----
+   the converse of the chain-position theorems: the sender re-sends its key, at its CURRENT position, with every group
+   retry answer; python-axolotl appends the new state and keeps using the first one (C03Model.process_skdm /
+   decrypt_sk), so for a recipient that holds a chain this is a no-op as far as decryption goes *)
+
+(* B holds the chain (k :: older) for (g, s) and reads a stanza whose pairwise ciphertext carries (g, it'), any it':
+   the state in use and its position are unchanged, the new state is stored behind *)
+Theorem C03_redistribution_keeps_chain : forall b im e b1 p g s it' k older,
+  lookup (pairkey g s) (a_skpeer b) = Some (k :: older) ->
+  i_from im = g -> sender_of im = s -> i_pw im = Some e -> i_sk im = None ->
+  decrypt_pw b s e = (b1, DOk p) -> p_skdm p = Some (g, it') ->
+  lookup (pairkey g s) (a_skpeer (fst (handle_enc b im))) = Some (k :: older ++ [mkK it' []]).
+Proof. exact redistribution_keeps_chain_thm. Qed.
+Print Assumptions C03_redistribution_keeps_chain.
+
+(* ... and every intact, typed sender-key-only stanza of s in g at or above the chain's start that was not decrypted
+   yet - in particular everything between B's position and it' - is still shown: exactly one entity and the delivery
+   receipt (a second copy of it is then only re-acknowledged: C03_at_most_once_partial_replay_senderkey) *)
+Theorem C03_redistribution_keeps_position : forall b im e b1 p g s it' k older im2 e2,
+  lookup (pairkey g s) (a_skpeer b) = Some (k :: older) ->
+  i_from im = g -> sender_of im = s -> i_pw im = Some e -> i_sk im = None ->
+  decrypt_pw b s e = (b1, DOk p) -> p_skdm p = Some (g, it') ->
+  i_from im2 = g -> sender_of im2 = s -> i_pw im2 = None -> i_sk im2 = Some e2 -> typed im2 ->
+  se_corrupt e2 = false -> k_start k <= se_iter e2 -> memN (se_iter e2) (k_seen k) = false ->
+  snd (handle_enc (fst (handle_enc b im)) im2) =
+  [ODeliver (i_from im2) (i_part im2) (i_id im2) (i_ty im2) (i_mt im2) (Some (se_content e2));
+   OReceipt (i_from im2) (i_part im2) (i_id im2)].
+Proof. exact redistribution_keeps_position_thm. Qed.
+Print Assumptions C03_redistribution_keeps_position.
+
+(* REFUTED for the variant that restarts the chain at it' ("keep the most recent state only"): whatever chain B held,
+   every intact stanza below it' is acknowledged to the sender and never shown *)
+Theorem C03_redistribution_restart_refuted : forall b s g it' im2 e2,
+  i_from im2 = g -> sender_of im2 = s -> i_pw im2 = None -> i_sk im2 = Some e2 ->
+  se_corrupt e2 = false -> se_iter e2 < it' ->
+  snd (handle_enc (process_skdm_restart b s (g, it')) im2) = [OReceipt (i_from im2) (i_part im2) (i_id im2)].
+Proof. exact restart_loses_position_refuted. Qed.
+Print Assumptions C03_redistribution_restart_refuted.
+
+(* non-vacuity + the witness on the history of the directed case redist-2-text-first: B holds A's chain (start 0,
+   iteration 0 read); the answer to B's retry receipt for message 2 carries (1000, 3); the held stanza of message 3
+   (iteration 2) is then shown by the model as it is, and only acknowledged by the restarting variant *)
+Theorem C03_redistribution_history_example :
+  snd (handle_enc rd_b rd_answer) = [ODeliver 1000 (Some 0) 2 0 0 (Some 2); OReceipt 1000 (Some 0) 2] /\
+  snd (handle_enc (fst (handle_enc rd_b rd_answer)) rd_g3) =
+    [ODeliver 1000 (Some 0) 3 0 0 (Some 3); OReceipt 1000 (Some 0) 3] /\
+  snd (handle_enc (process_skdm_restart (fst (handle_enc rd_b rd_answer)) 0 (1000, 3)) rd_g3) =
+    [OReceipt 1000 (Some 0) 3].
+Proof. exact redistribution_history_example. Qed.
+Print Assumptions C03_redistribution_history_example.
